@@ -9,7 +9,8 @@ import z3
 SCHEMA = {"__families__": []}
 schema = "timeseries"
 CONTRACTS = {}
-N_MAX = 4
+N_MAX = 6
+N_QUICK = 4
 
 
 def _env(n, with_assumption=True):
@@ -40,7 +41,7 @@ for _n in range(0, N_MAX + 1):
             ("C16.no_other_entries_appear", _nonew),
             ("C16.assumption_untouched", "self.assumption == old_assumption"),
         ],
-        defined_props=["C16"], raises={}, raises_props=["C16"])
+        defined_props=["C16"], raises={}, raises_props=["C16"], tiers=(["quick", "thorough"] if _n <= N_QUICK else ["thorough"]))
     if _n >= 1:
         _kept = " and ".join("(old_t[%d] == t or any(self.t[i] == old_t[%d] and self.vals[i] == old_v[%d] for i in range(len(self.t))))" % (j, j, j) for j in range(_n))
         CONTRACTS["utils:TimeSeries.remove#n%d" % _n] = dict(
@@ -52,11 +53,11 @@ for _n in range(0, N_MAX + 1):
                 ("C16.other_entries_unchanged", _kept),
                 ("C16.exactly_one_entry_removed", "len(self.t) == %d" % (_n - 1)),
             ],
-            defined_props=["C16"], raises_props=["C16"])
+            defined_props=["C16"], raises_props=["C16"], tiers=(["quick", "thorough"] if _n <= N_QUICK else ["thorough"]))
 
 
 # ---- interpolation (C06): exact at entered years, linear in between, constant outside the data range, or the assumption
-for _n in range(0, 4):
+for _n in range(0, 6):
     _ens = []
     if _n == 0:
         _ens.append(("C06.assumption_only_series_is_constant", "result[0] == old_assumption"))
@@ -71,7 +72,7 @@ for _n in range(0, 4):
     _ens.append(("C06.one_value_per_requested_time", "len(result) == 1"))
     CONTRACTS["utils:TimeSeries.interpolate#n%d" % _n] = dict(
         schema=schema, make_env=_env(_n), params={"t2": "real"}, ghost_params={"method": "const:'linear'"},
-        ensures=_ens, defined_props=["C06"], raises={}, raises_props=["C06"])
+        ensures=_ens, defined_props=["C06"], raises={}, raises_props=["C06"], tiers=(["quick", "thorough"] if _n <= 3 else ["thorough"]))
 
 
 
